@@ -9,6 +9,7 @@ import itertools
 import os
 import re
 import shutil
+import signal
 import tempfile
 
 PROPERTY = "C42"
@@ -33,14 +34,15 @@ ASSUMPTIONS = [
     "Excl: wrongly named files in the updates directory (not part of the statement)",
     "file order means chronological (year, quarter) order, the only order under which a chain spanning 4Q-2019 -> 1Q-2020 is followed",
     "package names limited to a/a..a/d, at most 3 files per directory",
+    "a read_updates call that does not return within 1 s of CPU time is reported as non-terminating",
 ]
 BOUNDS = {
     "quick": "8 valid lines; ordering part: all sequences of <=3 lines x all splits into <=3 non-empty files x all ordered name "
     "subsets of 4 quarter names x all listing orders; chain part: all sequences of 4 lines in 1 file and every 2-file split "
     "over (4Q-2019,1Q-2020); malformed part: 11 malformed kinds inserted at every position of every sequence of <=2 lines; "
     "empty-file part: sequences of <=2 lines over 3 files with empty files",
-    "thorough": "13 valid lines, 5 quarter names; ordering part <=3 lines (all splits/names/listings) plus 4 lines over the "
-    "misordered name subsets; chain part 5 lines (8-line alphabet) and 4 lines (13-line alphabet); malformed part over sequences of <=3 lines",
+    "thorough": "13 valid lines, 5 quarter names; ordering part <=3 lines (all splits/names/listings) plus 4 lines (8-line alphabet) over the "
+    "name subsets whose lexical and chronological orders differ; chain part 5 lines (8-line alphabet) and 4 lines (13-line alphabet); malformed part over sequences of <=3 lines",
 }
 
 # ----------------------------------------------------------------------------------------------------------------
@@ -125,7 +127,7 @@ def ref_parse(line):
 
 
 def reference(files):
-    """files: {name: [lines]} -> (expected mapping name -> list of [kind, a, b], arguable: bool)."""
+    """files: {name: [lines]} -> (expected mapping name -> list of [kind, a, b], arguable: bool, number of effective lines)."""
     events = []
     for name in sorted(files, key=chrono_key):
         for line in files[name]:
@@ -171,13 +173,23 @@ def reference(files):
                 cmds.append(["slotmove", f"{ev[2]}:{ev[3]}", ev[4]])
         if cmds:
             out[n] = cmds
-    return out, arguable
+    return out, arguable, len(effective)
 
 
 # ----------------------------------------------------------------------------------------------------------------
 # driving the real code
 # ----------------------------------------------------------------------------------------------------------------
 _state = {}
+CALL_TIMEOUT = 1  # seconds of CPU time; a normal call takes well under a millisecond
+MAX_TIMEOUTS_PER_TASK = 3  # after that many non-terminating calls a task stops calling and counts the skipped cases
+
+
+class _CallTimeout(BaseException):
+    pass
+
+
+def _on_alarm(signum, frame):
+    raise _CallTimeout()
 
 
 def _setup():
@@ -208,12 +220,21 @@ def observe(dirpath, listing):
         return list(listing)
 
     mod.listdir_files = shim
+    # the flattening of the command chains "needs to watch for cycles" (its own comment): bound the call so that a
+    # non-terminating walk is an observed outcome instead of a hung check
+    old = signal.signal(signal.SIGVTALRM, _on_alarm)
+    signal.setitimer(signal.ITIMER_VIRTUAL, CALL_TIMEOUT)
     try:
         try:
             res = mod.read_updates(dirpath, st["eapi"])
-        except Exception as e:  # observed outcome, judged by the oracle
+        except _CallTimeout:
+            return "raise:no-termination-within-%ds-cpu" % CALL_TIMEOUT
+        except (Exception, RecursionError) as e:  # observed outcome, judged by the oracle
             return "raise:" + type(e).__name__
+        finally:
+            signal.setitimer(signal.ITIMER_VIRTUAL, 0)
     finally:
+        signal.signal(signal.SIGVTALRM, old)
         mod.listdir_files = real
     out = {}
     for k, cmds in res.items():
@@ -237,9 +258,9 @@ def write_dir(dirpath, files):
 
 def judge(files, listing, dirpath):
     """-> (msgs, info).  Shared by work() and replay()."""
-    exp, arguable = reference(files)
+    exp, arguable, neff = reference(files)
     if arguable:
-        return [], {"excluded": True, "exp": exp, "obs": None}
+        return [], {"excluded": True, "exp": exp, "obs": None, "neff": neff}
     obs = observe(dirpath, listing)
     msgs = []
     if isinstance(obs, str):
@@ -249,7 +270,7 @@ def judge(files, listing, dirpath):
         diff = [k for k in keys if obs.get(k) != exp.get(k)]
         k = diff[0]
         msgs.append(f"commands for {k}: got {obs.get(k)} expected {exp.get(k)} (files {files}, differing names {diff})")
-    return msgs, {"excluded": False, "exp": exp, "obs": obs}
+    return msgs, {"excluded": False, "exp": exp, "obs": obs, "neff": neff}
 
 
 # ----------------------------------------------------------------------------------------------------------------
@@ -321,7 +342,8 @@ def tasks(tier):
     if cfg["ord4"]:
         for first in range(nv):
             for second in range(nv):
-                out.append(("ord4", tier, 4, (first, second)))
+                if first < len(VALID_Q) and second < len(VALID_Q):
+                    out.append(("ord4", tier, 4, (first, second)))
     for ci, (alpha, n) in enumerate(cfg["chain"]):
         for first in range(len(alpha)):
             for second in range(len(alpha)):
@@ -341,6 +363,8 @@ def gen(task):
     valid, names = cfg["valid"], cfg["names"]
     if kind in ("ord", "ord4"):
         n, prefix = x, y
+        if kind == "ord4":
+            valid = VALID_Q
         for rest in itertools.product(range(len(valid)), repeat=n - len(prefix)):
             seq = [valid[i] for i in prefix + rest]
             for files, listing in dirs_all_names(seq, names, only_misordered=(kind == "ord4")):
@@ -379,11 +403,7 @@ def classify(files, listing, malkind, info, bad):
     exp = info["exp"]
     moves = max((sum(1 for c in v if c[0] == "move") for v in exp.values()), default=0)
     total_valid = sum(1 for ls in files.values() for l in ls if ref_parse(l) is not None)
-    effective = set()
-    for v in exp.values():
-        for c in v:
-            effective.add(tuple(c))
-    dropped = "redundant-dropped" if len(effective) < total_valid else "all-effective"
+    dropped = "redundant-dropped" if info["neff"] < total_valid else "all-effective"
     return f"files{len(names)}{'-misordered' if mis else ''}:chain{min(moves, 3)}:{dropped}:{tag}"
 
 
@@ -397,8 +417,12 @@ def work(task):
     viol = []
     samples = []
     last_files = None
+    timeouts = skipped = 0
     try:
         for files, listing, malkind in gen(task):
+            if timeouts >= MAX_TIMEOUTS_PER_TASK:
+                skipped += 1
+                continue
             if files is not last_files and files != last_files:
                 write_dir(dirpath, files)
                 last_files = files
@@ -408,6 +432,8 @@ def work(task):
             classes[k] = classes.get(k, 0) + 1
             if msgs:
                 obs = info["obs"]
+                if isinstance(obs, str) and "no-termination" in obs:
+                    timeouts += 1
                 viol.append(
                     {
                         "files": files,
@@ -420,7 +446,8 @@ def work(task):
                 samples.append({"files": files, "listing": listing, "result": info["obs"]})
     finally:
         shutil.rmtree(root, ignore_errors=True)
-    return {"evals": evals, "classes": classes, "viol": viol, "samples": samples}
+    counters = {"cases_skipped_after_timeouts": skipped} if skipped else {}
+    return {"evals": evals, "classes": classes, "viol": viol, "samples": samples, "counters": counters}
 
 
 def replay(case):
@@ -471,7 +498,7 @@ def _lexical_file_order(case):
     # re-run the reference with the files renamed so that chronological order == lexical order of the originals
     lex = sorted(names)
     fake = {f"{i + 1}Q-2000": files[n] for i, n in enumerate(lex)}
-    exp_lex, _arguable = reference(fake)  # the 'already moved' rule decides, as in pkgcore, even on reused names
+    exp_lex, _arguable, _n = reference(fake)  # the 'already moved' rule decides, as in pkgcore, even on reused names
     root = tempfile.mkdtemp(dir="/dev/shm", prefix=f"verif-{PROPERTY}-{os.getpid()}-")
     try:
         dirpath = os.path.join(root, "updates")
